@@ -67,7 +67,7 @@ def run_typestate(ctx, m):
     loaders = [f for f in ctx.prog.units() if f.name == "try_from" and "OrderBook" in (f.impl_self or "")
                and f.crate.name == "bourse_book"]
     for f in loaders:
-        roots["loader"] = ts.analyse(f, {}, mode="loader")
+        roots["loader"] = ts.analyse(f, {}, mode="loader", q=m.qi(f))      # (private helpers of the loader spliced in)
     return ts, roots, loaders
 
 
